@@ -36,7 +36,11 @@ fn get(path: &str, entry: Entry) -> (Vec<u8>, Result<Result<(), String>, (String
 pub fn derive_paths(t: &Tree) -> Vec<(String, &'static str)> {
     let mut v: Vec<(String, &'static str)> = vec![];
     v.push(("/".into(), "special"));
-    for s in ["/style.css", "/script.js", "/favicon.svg"] { v.push((s.into(), "special")); }
+    for s in ["/style.css", "/script.js", "/favicon.svg"] {
+        v.push((s.into(), "special"));
+        // longer names that begin with a special route's name are ordinary lookups
+        for tail in ["x", ".map", ".gz", "/", "/x.txt", "on"] { v.push((format!("{}{}", s, tail), "near-miss-longer-than-special")); }
+    }
     for f in &t.files {
         v.push((f.url.clone(), "file"));
         if let Some(stem) = f.url.strip_suffix(".html") { if !stem.ends_with('/') { v.push((stem.to_string(), "html-fallback")); } }
